@@ -323,12 +323,36 @@ class AST2SCFGTransformer:
         recursive function is commonly called 'codegen'.
 
         """
-        for node in tree:
+        for idx, node in enumerate(tree):
             self.handle_ast_node(node)
             if isinstance(node, (ast.Return, ast.Break, ast.Continue)):
                 # Anything that follows in the same suite is unreachable and
                 # must not hide the terminator from the sealing of the block.
+                # It is not transformed, but it must still be supported.
+                self.reject_unsupported(tree[idx + 1 :])
                 break
+
+    def reject_unsupported(
+        self, tree: list[type[ast.AST]] | list[ast.stmt]
+    ) -> None:
+        """Raise if any of the (unreachable) statements is not supported."""
+        for node in tree:
+            if isinstance(node, (ast.If, ast.While, ast.For)):
+                self.reject_unsupported(node.body)
+                self.reject_unsupported(node.orelse)
+            elif not isinstance(
+                node,
+                (
+                    ast.AugAssign,
+                    ast.Assign,
+                    ast.Expr,
+                    ast.Return,
+                    ast.Break,
+                    ast.Continue,
+                    ast.Pass,
+                ),
+            ):
+                raise NotImplementedError(f"Node type {node} not implemented")
 
     def handle_ast_node(self, node: type[ast.AST] | ast.stmt) -> None:
         """Dispatch an AST node to handle."""
